@@ -15,13 +15,19 @@
 (*         vocabulary: compared with PathSafe!Touches (drift only)         *)
 (* The monitor (PathSafeProp) judges; the comparison with the design model *)
 (* is drift: printed as DRIFT lines, never a verdict.                      *)
+(* Two configurations: C20_trace.cfg checks the invariant bad = "" (TLC    *)
+(* stops at the first rejected line; this is what produces verdicts);      *)
+(* C20_trace_scan.cfg has no invariant and prints one REJECT line per      *)
+(* scenario whose latch is set when the next scenario starts, so that the  *)
+(* runner can find all candidates of a long log in one pass and confirm    *)
+(* one representative per class under C20_trace.cfg.                       *)
 (***************************************************************************)
 EXTENDS PathSafe, PathSafeProp, Json, IOUtils
 Log == ndJsonDeserialize(IOEnv.VERIF_TRACE)
 VARIABLES l, cur
 Ev == Log[l]
-NoScn == [ep |-> "-"]
-ScnOf(e) == [ep |-> e.ep, segs |-> e.segs, lead |-> e.lead, trail |-> e.trail, unpack |-> e.unpack, strip |-> e.strip,
+NoScn == [ep |-> "-", n |-> 0]
+ScnOf(e) == [n |-> e.n, ep |-> e.ep, segs |-> e.segs, lead |-> e.lead, trail |-> e.trail, unpack |-> e.unpack, strip |-> e.strip,
              ents |-> e.ents, op |-> e.op, h |-> e.h, place |-> e.place, wm |-> e.wm, chk |-> e.chk]
 ToSet(s) == {s[i] : i \in 1..Len(s)}
 \* drift: the real run touched a path the design model does not predict (model vocabulary)
@@ -30,7 +36,7 @@ TInit == PInit /\ l = 1 /\ cur = NoScn
 TNext ==
   /\ l <= Len(Log)
   /\ l' = l + 1
-  /\ \/ Ev.ev = "scn" /\ PScenario(Ev.allow) /\ cur' = ScnOf(Ev)
+  /\ \/ Ev.ev = "scn" /\ PScenario(Ev.allow) /\ cur' = ScnOf(Ev) /\ (bad # "" => PrintT(<<"REJECT", cur.n, bad>>))
      \/ Ev.ev = "sys" /\ PWrite(Ev.call, Ev.phys, Ev.lex) /\ UNCHANGED cur
      \/ Ev.ev = "rd" /\ PRead(Ev.phys) /\ UNCHANGED cur
      \/ Ev.ev = "chg" /\ PChange(Ev.what, Ev.path) /\ UNCHANGED cur
